@@ -390,6 +390,10 @@ func genCapx(r *rand.Rand, id string, tier string) string {
 	if r.Intn(8) == 0 {
 		c.Cap = 0
 	}
+	if r.Intn(25) == 0 {
+		// a large capacity is a capacity like any other (the getters must say so; the operations stay small)
+		c.Cap = []int{1023, 1024, 1025, 4096, 70000}[r.Intn(5)]
+	}
 	if r.Intn(4) == 0 {
 		c.Ppf = 1 + r.Intn(4) // a push policy: the capacity must hold on that path too
 	}
